@@ -4,8 +4,8 @@
      - every pin on at most one wire, once,
      - every instance mirroring its definition (its pins = the port bits of the definition),
      - port names and cable names distinct per model.
-   The self-containedness clause (no pin on a detached cable) is kept by every handler except
-   make_blackbox. *)
+   Self-containedness (no pin on a detached cable) is the separate invariant Oinv of
+   Proofs/BlifExec.v. *)
 From Coq Require Import List Arith NArith Bool Lia Permutation.
 From SV Require Import Base.Base Fmt.Blif Fmt.BlifRead Fmt.BlifSpec Proofs.BlifBase.
 Import ListNotations.
@@ -582,18 +582,18 @@ Qed.
 
 (* ---------- make_blackbox ---------- *)
 Lemma inv_blackbox cur ms :
-  Inv ms -> Inv (upd_model cur (fun m => set_cables (set_orphans m (m_orphans m ++ m_cables m)) []) ms).
+  Inv ms -> Inv (upd_model cur (fun m => set_cables m []) ms).
 Proof.
   intro HI. apply inv_upd_model; auto.
   - intros; tauto.
   - intros m Hm Hn [W1 W2 W3 W4 W5].
-    assert (Hp : Permutation (all_wire_pins (set_cables (set_orphans m (m_orphans m ++ m_cables m)) [])) (all_wire_pins m)).
-    { unfold all_wire_pins. cbn [set_cables set_orphans m_cables m_orphans app].
-      rewrite !cable_pins_app. apply Permutation_app_comm. }
+    assert (Hsub : forall pr, In pr (all_wire_pins (set_cables m [])) -> In pr (all_wire_pins m)).
+    { unfold all_wire_pins. cbn [set_cables m_cables m_orphans app]. intros pr H.
+      rewrite cable_pins_app. apply in_app_iff. right. exact H. }
     constructor; auto.
-    + intros pr Hpr. apply (Permutation_in _ Hp) in Hpr. apply W1 in Hpr.
-      destruct pr; cbn in *; assumption.
-    + apply (Permutation_NoDup (Permutation_sym Hp)). assumption.
+    + intros pr Hpr. apply Hsub in Hpr. apply W1 in Hpr. destruct pr; cbn in *; assumption.
+    + unfold all_wire_pins in *. cbn [set_cables m_cables m_orphans app]. rewrite cable_pins_app in W2.
+      apply NoDup_app_iff in W2. tauto.
     + cbn. constructor.
 Qed.
 
